@@ -208,6 +208,10 @@ impl Mp4Track {
     }
 
     pub fn duration(&self) -> Duration {
+        if self.trak.mdia.mdhd.timescale == 0 {
+            // no time base: the duration is not expressible
+            return Duration::default();
+        }
         Duration::from_micros(
             self.trak.mdia.mdhd.duration * 1_000_000 / self.trak.mdia.mdhd.timescale as u64,
         )
